@@ -257,6 +257,9 @@ fn check_history(report: &Report, rt: &Arc<tokio::runtime::Runtime>, hist_names:
 
 pub fn run(opts: Opts) -> i32 {
     let report = Report::new("C08", "exploration", opts.clone());
+    if let Some(path) = &opts.replay {
+        report.replay_by_re_enumeration(path);
+    }
     report.set_rule(
         "every history of <=4 (quick) / <=5 (thorough) ops from {message, answered run, open run, run_ended for the oldest open run, side \
          effects, cursor, checkpoint at the last message, checkpoint at the first message} plus macro threads (15/16/17/18/33 messages, \
